@@ -30,6 +30,11 @@ fn open_msg(asn: u32, id: Ipv4Addr, caps: &str) -> bgp::Message {
     let capability = match caps {
         "nocaps" => vec![],
         "caps" => vec![packet::Capability::MultiProtocol(Family::IPV4), packet::Capability::FourOctetAsNumber(asn), packet::Capability::RouteRefresh],
+        x if x.starts_with("caps2") => {
+            // capabilities of exactly N octets: the four-octet-AS capability (6) and one unknown capability (2 + N - 8)
+            let n: usize = x[4..].parse().unwrap();
+            vec![packet::Capability::FourOctetAsNumber(asn), packet::Capability::Unknown { code: 200, bin: vec![0xab; n - 8] }]
+        }
         _ => {
             let (l, _) = samples::capability_lists(&samples::families(), true, true, true, true);
             l
@@ -46,13 +51,15 @@ struct Built {
     attrs: Arc<Vec<packet::Attribute>>,
     nexthop: Option<bgp::Nexthop>,
     opens: Vec<(u32, u32)>,
+    /// number of capabilities in each OPEN, when the case fixes it
+    ncaps: Option<usize>,
     reason: u8,
 }
 
 fn build(c: &Case) -> Built {
     let fam = mc_family(&c.fam);
     let src = mc_source(&c.peer, &c.local);
-    let mut b = Built { msgs: vec![], fam, entries: vec![], attrs: Arc::new(vec![]), nexthop: None, opens: vec![], reason: 0 };
+    let mut b = Built { msgs: vec![], fam, entries: vec![], attrs: Arc::new(vec![]), nexthop: None, opens: vec![], ncaps: None, reason: 0 };
     match c.k.as_str() {
         "rm" => {
             b.entries = mc_entries(fam, &c.count, c.addpath);
@@ -154,6 +161,9 @@ fn build(c: &Case) -> Built {
                     remote_open: open_msg(src.remote_asn, rid, &c.x),
                 });
                 b.opens = vec![(LOCAL_ASN, u32::from(ROUTER_ID)), (src.remote_asn, src.router_id)];
+                if let bgp::Message::Open(o) = open_msg(LOCAL_ASN, ROUTER_ID, &c.x) {
+                    b.ncaps = Some(o.capability.len());
+                }
             }
         }
         "peerdown" => {
@@ -423,6 +433,12 @@ fn observe(c: &Case, shared: &mut bmp::BmpCodec) -> reader::Obs {
                     let got: Vec<(u32, u32)> = d.opens.iter().map(|x| (x.0, x.1)).collect();
                     if got != built.opens && o.content == "same" {
                         o.content = format!("diff: OPENs (asn, id) {:?} expected in the order sent, received; found {:?}", built.opens, got);
+                    }
+                    if let Some(n) = built.ncaps
+                        && d.opens.iter().any(|x| x.3 != n)
+                        && o.content == "same"
+                    {
+                        o.content = format!("diff: OPENs with {n} capabilities each monitored, found {:?}", d.opens.iter().map(|x| x.3).collect::<Vec<_>>());
                     }
                 } else if c.k == "peerdown" && d.notifications != 1 {
                     o.parse = "error: the peer down data is not a NOTIFICATION".into();
